@@ -157,10 +157,12 @@ func DrawProfile(property, tier string, r *PRNG) *Profile {
 		scale(p.Weights, []string{"SetFeeParams", "UpdSell"}, 2)
 		scale(p.Weights, dataKinds, 0.1)
 		scale(p.Weights, basketKinds, 0.3)
+		p.PBank = Pick(r, []float64{0.03, 0.08, 0.15}) // settlement makes three bank calls: each may fail
 	case "C08":
 		core(roleKinds...)
 		core(govKinds...)
-		core("Mint", "RegisterResolver", "DefineResolver", "CancelSell", "UpdSell", "Sell", "BasketCreate")
+		core("Mint", "RegisterResolver", "DefineResolver", "CancelSell", "UpdSell", "Sell", "BasketCreate", "BridgeReceive", "Seal", "CreateBatch")
+		scale(p.Weights, []string{"BridgeReceive", "Seal", "Mint"}, 2)
 		scale(p.Weights, roleKinds, 3)
 		scale(p.Weights, []string{"RegisterResolver", "DefineResolver"}, 3)
 		p.PHostile = Pick(r, []float64{0.15, 0.3, 0.45})
